@@ -126,6 +126,28 @@ func runSuffix(s *Script, rec *Rec) {
 				e["lcps"] = [][]int{}
 			}
 			rec.Emit(e)
+		case "suffixstages":
+			// the arrays of the sort driver between its stages (verif hook),
+			// compared with the stage model DivSufSort.tla
+			e := Event{"op": name, "t": B(orig)}
+			sa := garbage(len(t), idx)
+			stages := map[int][]int{}
+			suffix.VerifStage = func(stage int, a []int32) { stages[stage] = i32(a) }
+			ok := rec.Call(name, func() { suffix.Sort(t, sa) })
+			suffix.VerifStage = nil
+			if !ok {
+				return
+			}
+			e["sa"] = i32(sa)
+			e["m"] = len(stages[4])
+			for _, k := range []int{1, 2, 3, 4, 5, 6} {
+				if a, ok := stages[k]; ok {
+					e["s"+itoa(int64(k))] = a
+				} else {
+					e["s"+itoa(int64(k))] = []int{}
+				}
+			}
+			rec.Emit(e)
 		case "segments":
 			minLen, maxLen := int(num(op["minlen"])), int(num(op["maxlen"]))
 			var sa, lcp []int32
@@ -380,6 +402,23 @@ func genSuffix(seed int64, n int, tier string) []Script {
 			ops = append(ops, map[string]any{"op": "suffix", "t": B2(t), "class": class})
 			if len(t) <= 300 {
 				ops = append(ops, map[string]any{"op": "suffixcfg", "t": B2(t), "st": pickInt(r, 1, 2, 3), "trst": pickInt(r, 1, 2, 3)})
+			}
+			// short texts over few letters also go through the stage hook
+			// (compared with DivSufSort.tla); longer ones reduced to their
+			// first 40 bytes over two letters, so that many B* suffixes
+			// share a bucket and the rank sort has work to do
+			if len(t) >= 3 {
+				u := append([]byte{}, t...)
+				if len(u) > 40 {
+					u = u[:40]
+				}
+				for k := range u {
+					u[k] &= 1
+					if len(t) <= 40 {
+						u[k] = t[k] & 3
+					}
+				}
+				ops = append(ops, map[string]any{"op": "suffixstages", "t": B2(u)})
 			}
 		}
 		out = append(out, Script{Tid: "suffix-" + itoa(seed) + "-" + itoa(int64(i)), Comp: "suffix",
